@@ -1,3 +1,105 @@
+/-
+  C01 — instrumentation is transparent when nothing is overridden.
+
+  Model M2: the PyLite fragment of Python's `ast` (Model/PyAst), ptera's rewriter as a function on it
+  (`instrument`, Model/Instrument — tied to `ptera/transform.py` by the AST correspondence), an executable
+  semantics (Model/PySem, PyRun — tied to CPython and to real probes by the executable correspondence).
+
+  `C01_rewrite_refines_reference` (= `instrument_refines`): for EVERY function of the core fragment
+  (`coreF`: names, tuple / nested / starred targets, attribute and subscript stores, augmented and annotated
+  assignment, declarations, walrus, yield, if / while / for / try / with, nested def / class / import,
+  return / raise / break / continue; chained assignment and computed subscripts of a named container are
+  outside), every capture set, every host (whatever calls, arithmetic, iteration, context managers … do),
+  every handler, every input, every driving script of a generator and every loop bound, the rewritten
+  function ends the same way as the reference semantics of the original — same result or exception, same
+  world (side effects, in order), same handler state (events), same values yielded and received.
+
+  The reference semantics is plain Python in which the bindings of captured names consult the handler.
+  `C01_observer_changes_nothing`: a handler that observes (answers the value it is shown) makes such a
+  binding store exactly what Python would have stored.
+
+  Full statement (`Transparent`) = refinement + erasure of the observing handler over whole runs.  The
+  erasure over whole runs is not proved here (`…_partial`); it is what the differential oracle of the check
+  explores (untouched function vs tooled / tooled in place / probed on subsets of its variables).
+-/
+import PteraModel.Proofs.PyLiteSpec
 namespace Ptera.Props.C01
-theorem C01_placeholder : True := trivial
+open Ptera.Py Ptera.Sem
+
+variable {W HS : Type}
+
+/-- a handler that only observes: it answers the value it is shown -/
+def Observer (host : Host W HS) : Prop := ∀ i hs, (host.hnd i hs).1 = .ok i.value
+
+/-- the full statement of the property on the model: under an observing handler the rewritten function
+    behaves as the untouched one (plain Python: `hk = none`) -/
+def Transparent (host : Host W HS) (cfg : Cfg) (f : FunDef) : Prop :=
+  Observer host → ∀ fuel (st0 : St W HS), (∀ x ∈ (collect f).external, st0.loc x = none) →
+    (runInstr (ctxOf host cfg f fuel).envI fuel (instrument cfg f) st0).1
+      = (runRef { host := host, sc := scopeOf f, hk := none } fuel f st0).1
+    ∧ (runInstr (ctxOf host cfg f fuel).envI fuel (instrument cfg f) st0).2.w
+      = (runRef { host := host, sc := scopeOf f, hk := none } fuel f st0).2.w
+    ∧ (runInstr (ctxOf host cfg f fuel).envI fuel (instrument cfg f) st0).2.out
+      = (runRef { host := host, sc := scopeOf f, hk := none } fuel f st0).2.out
+
+/-- the rewritten function refines the reference semantics of the original: result, world, events,
+    generator traffic -/
+theorem C01_rewrite_refines_reference_partial (host : Host W HS) (hh : HostSpec host) (cfg : Cfg) (f : FunDef)
+    (fuel : Nat) (hf : coreF f = true) (st0 : St W HS) (hinit : ∀ x ∈ (collect f).external, st0.loc x = none) :
+    (runInstr (ctxOf host cfg f fuel).envI fuel (instrument cfg f) st0).1
+      = (runRef (ctxOf host cfg f fuel).envR fuel f st0).1
+    ∧ Obs (runInstr (ctxOf host cfg f fuel).envI fuel (instrument cfg f) st0).2
+        (runRef (ctxOf host cfg f fuel).envR fuel f st0).2 :=
+  instrument_refines host cfg f fuel hf (libSpec_of_host host hh cfg f fuel hf) st0 hinit
+
+/-- at a binding, an observing handler leaves the value as it is (unless it is ptera's marker, which no
+    program value is): the reference semantics stores what Python stores -/
+theorem C01_observer_changes_nothing (env : Env W HS) (hobs : Observer env.host) (name : String)
+    (key ann v : Val) (ovr : Bool) (hv : v ≠ .absent) (st : St W HS) :
+    (interactSem env name key ann v ovr st).1 = .ok v
+    ∧ (interactSem env name key ann v ovr st).2.loc = st.loc
+    ∧ (interactSem env name key ann v ovr st).2.w = st.w
+    ∧ (interactSem env name key ann v ovr st).2.out = st.out := by
+  unfold interactSem
+  have h := hobs { name := name, key := key, ann := ann, value := v, ovr := ovr } st.hs
+  rcases hh : env.host.hnd { name := name, key := key, ann := ann, value := v, ovr := ovr } st.hs with ⟨r, hs1⟩
+  rw [hh] at h
+  simp only at h
+  subst h
+  cases v <;> first | exact absurd rfl hv | exact ⟨rfl, rfl, rfl, rfl⟩
+
+/-- variables outside the capture set are not touched at all: their bindings do not consult the handler -/
+theorem C01_uncaptured_untouched (env : Env W HS) (cfg : Cfg) (henv : env.hk = some cfg) (name : String)
+    (ann : Option Ann) (v : Val) (hoff : shouldInstr cfg name (annTags ann) = false) :
+    hook env name ann v = pure v := by
+  unfold hook
+  simp [henv, hoff]
+
+/-- the hypotheses are satisfiable: the host of the generated programs is one -/
+theorem C01_host_exists : HostSpec PyLite.host := PyLite.hostSpec
+
+/-- …and a concrete function of the fragment (`def f(a): b = a; return b`) runs to its result through
+    the rewritten code (checked by evaluation in the kernel) -/
+def sample : FunDef :=
+  { name := "f", params := [{ name := "a", ann := none }], defaults := [], returns := none, doc := none,
+    body := [.assign [.name "b"] (.name "a"), .ret (some (.name "b"))], freevars := [] }
+
+theorem C01_sample_in_fragment : coreF sample = true := by decide
+
+def sampleState : St PyLite.World PyLite.HState :=
+  { loc := initLoc ["a"] [.int 5], w := {}, hs := {}, inp := [], out := [], cur := [] }
+
+def isRetInt : Ctl → Int → Bool
+  | .ret (.int n), m => n == m
+  | _, _ => false
+
+/-- a test, not a theorem about all programs: `f(5)` run through the rewritten code, every variable
+    captured, returns 5 and reports `#enter, a, b, #value, #exit` -/
+theorem C01_sample_runs :
+    isRetInt (runInstr (ctxOf PyLite.host [⟨none, none⟩] sample 5).envI 5
+        (instrument [⟨none, none⟩] sample) sampleState).1 5 = true
+    ∧ ((runInstr (ctxOf PyLite.host [⟨none, none⟩] sample 5).envI 5
+        (instrument [⟨none, none⟩] sample) sampleState).2.hs.events.map (·.name))
+      = ["#enter", "a", "b", "#value", "#exit"] := by decide
+
 end Ptera.Props.C01
